@@ -1,0 +1,357 @@
+//! Verification hooks. Only compiled with `--cfg unimock_verif`; never part of a normal build.
+//!
+//! * [DynClause]: a clause list whose length is known only at run time.
+//! * [AtomicUsize], [LockScope], [yield_point]: scheduling points for a controlled scheduler.
+//! * [snapshot], [instance]: read-only views of the internal state.
+#![allow(missing_docs)]
+
+use core::any::TypeId;
+use core::sync::atomic::Ordering;
+
+use once_cell::sync::OnceCell;
+
+use crate::alloc::{Box, String, ToString, Vec};
+use crate::call_pattern::PatIndex;
+use crate::fn_mocker::PatternMatchMode;
+use crate::{clause, Clause, FallbackMode, Unimock};
+
+// ---------------------------------------------------------------------------------------------
+// H1: clause lists of run-time length
+// ---------------------------------------------------------------------------------------------
+
+type DynDeconstruct = Box<dyn FnOnce(&mut dyn clause::term::Sink) -> Result<(), String>>;
+
+/// A clause made of any number of other clauses, deconstructed left to right.
+#[derive(Default)]
+pub struct DynClause {
+    items: Vec<DynDeconstruct>,
+}
+
+impl DynClause {
+    pub fn new() -> Self {
+        Self::default()
+    }
+
+    pub fn push(&mut self, clause: impl Clause + 'static) {
+        self.items
+            .push(Box::new(move |sink| clause.deconstruct(sink)));
+    }
+
+    pub fn len(&self) -> usize {
+        self.items.len()
+    }
+
+    pub fn is_empty(&self) -> bool {
+        self.items.is_empty()
+    }
+}
+
+impl Clause for DynClause {
+    fn deconstruct(self, sink: &mut dyn clause::term::Sink) -> Result<(), String> {
+        for item in self.items {
+            item(sink)?;
+        }
+        Ok(())
+    }
+}
+
+// ---------------------------------------------------------------------------------------------
+// H2: scheduling points
+// ---------------------------------------------------------------------------------------------
+
+/// The kind of shared-memory operation about to be performed.
+#[derive(Clone, Copy, Debug, PartialEq, Eq, PartialOrd, Ord, Hash)]
+pub enum Op {
+    Load,
+    Store,
+    Rmw,
+    LockAcquire,
+    LockRelease,
+    CellInsert,
+}
+
+static HOOK: OnceCell<fn(Op, usize)> = OnceCell::new();
+
+/// Install the process-wide yield hook. Returns false if one was already installed.
+pub fn set_hook(hook: fn(Op, usize)) -> bool {
+    HOOK.set(hook).is_ok()
+}
+
+/// Announce an operation on the shared object identified by `addr`, *before* performing it.
+#[inline]
+pub fn yield_point(op: Op, addr: usize) {
+    if let Some(hook) = HOOK.get() {
+        hook(op, addr);
+    }
+}
+
+/// Drop-in replacement for `core::sync::atomic::AtomicUsize` that announces every operation.
+pub struct AtomicUsize(core::sync::atomic::AtomicUsize);
+
+impl AtomicUsize {
+    pub const fn new(value: usize) -> Self {
+        Self(core::sync::atomic::AtomicUsize::new(value))
+    }
+
+    fn addr(&self) -> usize {
+        self as *const Self as usize
+    }
+
+    /// Read without announcing (for snapshots only).
+    pub fn peek(&self) -> usize {
+        self.0.load(Ordering::SeqCst)
+    }
+
+    pub fn get_mut(&mut self) -> &mut usize {
+        self.0.get_mut()
+    }
+
+    pub fn into_inner(self) -> usize {
+        self.0.into_inner()
+    }
+
+    pub fn load(&self, order: Ordering) -> usize {
+        yield_point(Op::Load, self.addr());
+        self.0.load(order)
+    }
+
+    pub fn store(&self, value: usize, order: Ordering) {
+        yield_point(Op::Store, self.addr());
+        self.0.store(value, order)
+    }
+
+    pub fn swap(&self, value: usize, order: Ordering) -> usize {
+        yield_point(Op::Rmw, self.addr());
+        self.0.swap(value, order)
+    }
+
+    pub fn compare_exchange(
+        &self,
+        current: usize,
+        new: usize,
+        success: Ordering,
+        failure: Ordering,
+    ) -> Result<usize, usize> {
+        yield_point(Op::Rmw, self.addr());
+        self.0.compare_exchange(current, new, success, failure)
+    }
+
+    pub fn compare_exchange_weak(
+        &self,
+        current: usize,
+        new: usize,
+        success: Ordering,
+        failure: Ordering,
+    ) -> Result<usize, usize> {
+        yield_point(Op::Rmw, self.addr());
+        // never fails spuriously, so that replays are deterministic
+        self.0.compare_exchange(current, new, success, failure)
+    }
+
+    pub fn fetch_update<F>(
+        &self,
+        set_order: Ordering,
+        fetch_order: Ordering,
+        mut f: F,
+    ) -> Result<usize, usize>
+    where
+        F: FnMut(usize) -> Option<usize>,
+    {
+        let mut prev = self.load(fetch_order);
+        while let Some(next) = f(prev) {
+            match self.compare_exchange(prev, next, set_order, fetch_order) {
+                Ok(x) => return Ok(x),
+                Err(next_prev) => prev = next_prev,
+            }
+        }
+        Err(prev)
+    }
+
+    pub fn fetch_add(&self, value: usize, order: Ordering) -> usize {
+        yield_point(Op::Rmw, self.addr());
+        self.0.fetch_add(value, order)
+    }
+
+    pub fn fetch_sub(&self, value: usize, order: Ordering) -> usize {
+        yield_point(Op::Rmw, self.addr());
+        self.0.fetch_sub(value, order)
+    }
+
+    pub fn fetch_max(&self, value: usize, order: Ordering) -> usize {
+        yield_point(Op::Rmw, self.addr());
+        self.0.fetch_max(value, order)
+    }
+
+    pub fn fetch_min(&self, value: usize, order: Ordering) -> usize {
+        yield_point(Op::Rmw, self.addr());
+        self.0.fetch_min(value, order)
+    }
+
+    pub fn fetch_and(&self, value: usize, order: Ordering) -> usize {
+        yield_point(Op::Rmw, self.addr());
+        self.0.fetch_and(value, order)
+    }
+
+    pub fn fetch_or(&self, value: usize, order: Ordering) -> usize {
+        yield_point(Op::Rmw, self.addr());
+        self.0.fetch_or(value, order)
+    }
+
+    pub fn fetch_xor(&self, value: usize, order: Ordering) -> usize {
+        yield_point(Op::Rmw, self.addr());
+        self.0.fetch_xor(value, order)
+    }
+}
+
+impl Default for AtomicUsize {
+    fn default() -> Self {
+        Self::new(0)
+    }
+}
+
+impl core::fmt::Debug for AtomicUsize {
+    fn fmt(&self, f: &mut core::fmt::Formatter<'_>) -> core::fmt::Result {
+        self.0.fmt(f)
+    }
+}
+
+impl From<usize> for AtomicUsize {
+    fn from(value: usize) -> Self {
+        Self::new(value)
+    }
+}
+
+/// Announces `LockAcquire` when entered (before the real lock is taken) and `LockRelease` when
+/// dropped (after the real lock has been released, if declared before the guard).
+pub struct LockScope(usize);
+
+impl LockScope {
+    pub fn enter(addr: usize) -> Self {
+        yield_point(Op::LockAcquire, addr);
+        Self(addr)
+    }
+}
+
+impl Drop for LockScope {
+    fn drop(&mut self) {
+        yield_point(Op::LockRelease, self.0);
+    }
+}
+
+// ---------------------------------------------------------------------------------------------
+// H3: snapshots
+// ---------------------------------------------------------------------------------------------
+
+#[derive(Clone, Debug, PartialEq, Eq, PartialOrd, Ord, Hash)]
+pub struct PatternSnap {
+    /// how many calls have been counted as matching this pattern
+    pub count: usize,
+    pub minimum: usize,
+    /// "Exact" | "AtLeast" | "AtLeastPlusOne"
+    pub exactness: &'static str,
+    /// half-open range of global ordered call indexes (empty for unordered patterns)
+    pub range: (usize, usize),
+    /// start index of each responder
+    pub responder_starts: Vec<usize>,
+    /// how the pattern is named in messages
+    pub debug: String,
+}
+
+#[derive(Clone, Debug, PartialEq, Eq, PartialOrd, Ord, Hash)]
+pub struct MethodSnap {
+    /// `Trait::method`
+    pub path: String,
+    pub type_id: TypeId,
+    pub ordered: bool,
+    pub patterns: Vec<PatternSnap>,
+}
+
+#[derive(Clone, Debug, PartialEq, Eq, PartialOrd, Ord, Hash)]
+pub struct Snapshot {
+    pub partial: bool,
+    /// in the (unspecified) iteration order of the method table
+    pub methods: Vec<MethodSnap>,
+    pub ordered_index: usize,
+    pub panic_reasons: Vec<String>,
+}
+
+impl Snapshot {
+    pub fn method(&self, path: &str) -> Option<&MethodSnap> {
+        self.methods.iter().find(|m| m.path == path)
+    }
+}
+
+/// A read-only view of the state shared by an instance and all of its clones.
+pub fn snapshot(unimock: &Unimock) -> Snapshot {
+    let state = &unimock.shared_state;
+
+    Snapshot {
+        partial: matches!(state.fallback_mode, FallbackMode::Unmock),
+        methods: state
+            .fn_mockers
+            .values()
+            .map(|fn_mocker| MethodSnap {
+                path: fn_mocker.info.path.to_string(),
+                type_id: fn_mocker.info.type_id,
+                ordered: fn_mocker.pattern_match_mode == PatternMatchMode::InOrder,
+                patterns: fn_mocker
+                    .call_patterns
+                    .iter()
+                    .enumerate()
+                    .map(|(index, pattern)| {
+                        let (count, minimum, exactness) = pattern.call_counter.verif_peek();
+                        PatternSnap {
+                            count,
+                            minimum,
+                            exactness,
+                            range: (
+                                pattern.ordered_call_index_range.start,
+                                pattern.ordered_call_index_range.end,
+                            ),
+                            responder_starts: pattern
+                                .responders
+                                .iter()
+                                .map(|responder| responder.response_index)
+                                .collect(),
+                            debug: fn_mocker.debug_pattern(PatIndex(index)).to_string(),
+                        }
+                    })
+                    .collect(),
+            })
+            .collect(),
+        ordered_index: state.verif_peek_ordered_call_index(),
+        panic_reasons: state
+            .clone_panic_reasons()
+            .iter()
+            .map(ToString::to_string)
+            .collect(),
+    }
+}
+
+#[derive(Clone, Copy, Debug, PartialEq, Eq, PartialOrd, Ord, Hash)]
+pub struct InstanceSnap {
+    pub original_instance: bool,
+    pub torn_down: bool,
+    pub verify_in_drop: bool,
+    /// number of live handles on the shared state (original + clones + helper clones)
+    pub strong_count: usize,
+    pub has_delegator: bool,
+    pub value_chain_len: usize,
+}
+
+/// A read-only view of the per-instance state.
+pub fn instance(unimock: &Unimock) -> InstanceSnap {
+    InstanceSnap {
+        original_instance: unimock.original_instance,
+        torn_down: unimock.torn_down,
+        verify_in_drop: unimock.verify_in_drop,
+        strong_count: crate::alloc::Arc::strong_count(&unimock.shared_state),
+        has_delegator: unimock.default_impl_delegator_cell.get().is_some(),
+        value_chain_len: unimock.value_chain.verif_len(),
+    }
+}
+
+/// Identity of the shared state (equal for an instance and its clones).
+pub fn shared_state_addr(unimock: &Unimock) -> usize {
+    crate::alloc::Arc::as_ptr(&unimock.shared_state) as usize
+}
